@@ -129,6 +129,26 @@ where StandardNormal: Distribution<F>, Exp1: Distribution<F>, Open01: Distributi
             }
         }
     }
+    // Triangular: exact quantile identity on the lattice of squares (f = j^2/2^16 on the left branch, 1 - f = j^2/2^16 on the right)
+    for (mn, mx, md) in [(0i64, 4i64, 1i64), (0, 4, 3), (-2, 2, -1), (-2, 2, 1), (0, 4, 0), (0, 4, 4), (1, 5, 2)] {
+        let Ok(t) = Triangular::new(F::of(mn as f64), F::of(mx as f64), F::of(md as f64)) else { continue };
+        for j in 0..=256i64 { for side in 0..2 {
+            let fnum = if side == 0 { j * j } else { 65536 - j * j };
+            if !(0..65536).contains(&fnum) { continue; }
+            // keep only lattice points where the quantile is an exact dyadic: the product under the square root is a perfect square
+            let (range, dm, um) = (mx - mn, md - mn, mx - md);
+            let prod = if fnum * range < dm * 65536 { fnum * range * dm } else { (65536 - fnum) * range * um };
+            let rt = (prod as f64).sqrt().round() as i64;
+            if rt * rt != prod { continue; }
+            // StandardUniform: f32 takes the top 24 bits, f64 the top 53: fnum/2^16 is representable in both
+            let word: u64 = (fnum as u64) << 48;
+            let mut rng = ScriptRng::new(vec![word], 3);
+            let r = guarded(|| t.sample(&mut rng));
+            let (res, xq, yq) = match r { Ok(x) => { let a = (x.f64v() - mn as f64) * 256.0; let b = (mx as f64 - x.f64v()) * 256.0;
+                ("Ok".to_string(), if a.fract() == 0.0 { a as i64 } else { -1 }, if b.fract() == 0.0 { b as i64 } else { -1 }) } Err(p) => (format!("Panic: {}", p), -1, -1) };
+            out.push(json!({"op": "tri", "ft": F::NAME, "mn": mn, "mx": mx, "md": md, "fn": fnum, "xq": xq, "yq": yq, "words": rng.words(), "res": res}).to_string());
+        } }
+    }
     // from_zscore on the dyadic lattice k/16
     for _ in 0..(nrand * 4) {
         let (m, s, z) = (rnd.below(129) as i64 - 64, rnd.below(129) as i64 - 64, rnd.below(129) as i64 - 64);
